@@ -74,6 +74,9 @@ M = [
  dict(name="wrapping_sub_swapped", prop="C15", file="src/uint/sub.rs",
       old="    fn wrapping_sub(&self, v: &Self) -> Self {\n        self.wrapping_sub(v)", new="    fn wrapping_sub(&self, v: &Self) -> Self {\n        v.wrapping_sub(self)",
       expect="c15.forward|uint::sub::<impl num_traits::WrappingSub for uint::Uint<_>>::wrapping_sub"),
+ dict(name="checked_sub_closure_swapped", prop="C15", file="src/checked.rs",
+      old="lhs.checked_sub(&rhs)", new="rhs.checked_sub(&lhs)", count=1,
+      expect="c15.deep|<checked::Checked<_> as core::ops::Sub>::sub"),
  # --- C16
  dict(name="hex_err_dropped", prop="C16", file="src/uint/encoding.rs",
       old="                err |= byte_err;", new="                let _ = byte_err;", count=1,
